@@ -215,6 +215,61 @@ def h_large(ctx, side, total):
   ctx.witness('done')
 
 
+def h_live(ctx, tail, cuts, ncuts=0):
+  """Controller side with its real handler tables (the handshake handlers replace themselves by the default ones when the barrier reply
+  arrives): hello and features reply first, then one stream - the awaited barrier reply followed by asynchronous messages - cut at
+  symbolic positions.  What the application sees (events, echo replies written back) must not depend on the cuts."""
+  core = env.get_core()
+  of01 = ctx.pox('pox.openflow.of_01'); of = ctx.pox('pox.openflow.libopenflow_01'); ofp = ctx.pox('pox.openflow')
+  of01.deferredSender = Dummy(); of01.time = env.Clock(100)
+  of.generate_xid = of.xid_generator(); of01.Connection.ID = 0
+  nexus = ofp.OpenFlowNexus()
+  core.components['openflow'] = nexus
+  core.components['OpenFlowConnectionArbiter'] = ofp.OpenFlowConnectionArbiter(default=False)
+  sock = env.FakeSocket(eof=False); con = of01.Connection(sock)
+  seen = []
+  for name in ('ConnectionUp', 'PacketIn', 'PortStatus', 'BarrierIn', 'FlowRemoved', 'ErrorIn'):
+    con.addListenerByName(name, lambda e, name=name: seen.append((name, getattr(getattr(e, 'ofp', None), 'xid', None))))
+  fr = of.ofp_features_reply(datapath_id=7, xid=3); fr.ports.append(of.ofp_phy_port(port_no=1, name='p1'))
+  sock.feed(of.ofp_hello().pack() + fr.pack())
+  ctx.check('read() keeps the connection', con.read() is True)
+  bx = None
+  for chunk in sock.sent:
+    data = bytes(chunk); off = 0
+    while off + 8 <= len(data):
+      if data[off + 1] == 18: bx = int.from_bytes(data[off + 4:off + 8], 'big')
+      off += (data[off + 2] << 8) | data[off + 3]
+  ctx.check('the handshake sent a barrier request', bx is not None)
+  del sock.sent[:]
+  msgs = [hdr(19, 8, bx)]; expect = [('ConnectionUp', None)]; echoes = []
+  for i, k in enumerate(tail):
+    xid = ctx.int('xid%d' % i, 0, 0xffffffff)
+    if k == 'packet_in':
+      body = ctx.bytes('body%d' % i, 14)
+      msgs.append(hdr(10, 18 + 14, xid) + be(0xffffffff, 4) + be(14, 2) + be(1, 2) + [0, 0] + list(body)); expect.append(('PacketIn', xid))
+    elif k == 'port_status':
+      raw = list(of.ofp_port_status(reason=0, desc=of.ofp_phy_port(port_no=2 + i, name='q%d' % i)).pack())
+      msgs.append(hdr(12, len(raw), xid) + raw[8:]); expect.append(('PortStatus', xid))
+    elif k == 'barrier': msgs.append(hdr(19, 8, xid)); expect.append(('BarrierIn', xid))
+    elif k == 'flow_removed':
+      raw = list(of.ofp_flow_removed().pack()); msgs.append(hdr(11, len(raw), xid) + raw[8:]); expect.append(('FlowRemoved', xid))
+    elif k == 'echo':
+      body = ctx.bytes('body%d' % i, 2); msgs.append(hdr(2, 10, xid) + list(body)); echoes.append(hdr(3, 10, xid) + list(body))
+    else: raise KeyError(k)
+  stream = env.tobytes(ctx, [x for m in msgs for x in m])
+  for step, ch in enumerate(chunks_of(ctx, stream, cuts, ncuts)):
+    if len(ch) == 0: continue
+    sock.feed(ch)
+    ctx.check('read() keeps the connection', con.read() is True)
+  ctx.check('events: one per message, in order', len(seen) == len(expect) and all(a[0] == b[0] for a, b in zip(seen, expect)))
+  for a, b in zip(seen, expect):
+    if b[1] is not None: ctx.check('event carries its message', a[1] == b[1])
+  back = [x for chunk in sock.sent for x in list(chunk)]
+  ctx.check('echo requests answered once each, in order', ctx.Eq(env.tobytes(ctx, back), env.tobytes(ctx, [x for e in echoes for x in e])))
+  ctx.check('residual empty', len(con.buf) == 0)
+  ctx.witness('done')
+
+
 CTL_KINDS = ['hello', 'echo2', 'reply0', 'error1', 'barrier_rep', 'get_config_reply', 'packet_in3', 'features_reply']
 SW_KINDS = ['hello', 'echo2', 'features_req', 'set_config', 'barrier_req', 'packet_out2', 'flow_mod', 'port_mod', 'error0']
 
@@ -243,7 +298,14 @@ def obligations(tier):
   BOUNDS[tier] = dict(messages_per_stream="2..3", cuts="every 1-cut; every 2-cut (quick: two streams per side, thorough: all); 1-byte dribble; 3 cuts on one stream (thorough)",
                       controller_types=CTL_KINDS, switch_types=SW_KINDS, recv_boundary="echo request of 2048-8+{0,1,2} body bytes followed by hello",
                       large="hello, echo request of total length 0x7fff / 0x8000 / 0xffff (symbolic xid and edge bytes), echo request; both sides")
+  live = []
+  for tail in (['packet_in', 'barrier'], ['port_status', 'echo', 'packet_in'], ['echo', 'flow_removed']) + ((['packet_in', 'packet_in', 'echo', 'barrier'],) if thorough else ()):
+    live.append(dict(tail=tail, cuts='sym', ncuts=1)); live.append(dict(tail=tail, cuts=[]))
+    if thorough or tail == ['packet_in', 'barrier']: live.append(dict(tail=tail, cuts='sym', ncuts=2))
+    if thorough: live.append(dict(tail=tail, cuts='dribble'))
   return [
+    Obligation('O5_live_handlers', h_live, live, witnesses=('done',), max_decisions=50000, conc_cap=400,
+               desc='controller with its real handler tables: the barrier reply that ends the handshake and the messages behind it, every segmentation'),
     Obligation('O1_controller', h_controller, ctl, witnesses=('done',), max_decisions=50000, conc_cap=400,
                desc='Connection.read: delivered sequence == sent sequence for every segmentation'),
     Obligation('O2_switch', h_switch, swc, witnesses=('done',), max_decisions=50000, conc_cap=400,
